@@ -116,6 +116,59 @@ def codeSeries (skipEmpty : Bool) (reqs : List Request) (s : Series) : Option Se
 def rewriteCode (skipEmpty : Bool) (reqs : List Request) (block : List Series) : List Series :=
   block.filterMap (codeSeries skipEmpty reqs)
 
+/-! ### native histogram chunks
+
+`delChunkSeriesIterator.Next` re-encodes a partially deleted chunk with `chunkenc.NewXORChunk()` and
+`p.currDelIter.At()`; for a histogram chunk `At()` panics ("cannot call histogramIterator.At", the
+sample iterator carries `TODO: Needs to be implemented for native histogram support`).  A histogram
+chunk is fine as long as it never reaches the re-encoding: inside one interval (dropped), disjoint
+from every interval (kept), or emptied by the overlapping intervals (skipped). -/
+
+/-- a chunk with its encoding: `true` = native histogram samples (the value stands for the histogram) -/
+abbrev KChunk := Bool × Chunk
+
+structure KSeries where
+  labels : LSet
+  chunks : List KChunk
+  deriving Repr, DecidableEq
+
+/-- the chunk loop with encodings; `none` = the process panics -/
+def codeChunksK (ivs : List Interval) : List KChunk → Option (List KChunk)
+  | [] => some []
+  | (hist, c) :: cs =>
+    match chunkMin c, chunkMax c with
+    | some mn, some mx =>
+      if ivs.any (fun i => i.has mn && i.has mx) then codeChunksK ivs cs
+      else
+        let ov := ivs.filter fun i => decide (mn ≤ i.maxt) && decide (i.mint ≤ mx)
+        if ov.isEmpty then (codeChunksK ivs cs).map ((hist, c) :: ·)
+        else
+          let c' := c.filter fun x => !covered ov x.1
+          if c'.isEmpty then codeChunksK ivs cs
+          else if hist then none                      -- p.currDelIter.At() on a histogram iterator
+          else (codeChunksK ivs cs).map ((false, c') :: ·)
+    | _, _ => codeChunksK ivs cs
+
+/-- one series; `none` = panic, `some none` = the series is not written -/
+def codeSeriesK (reqs : List Request) (s : KSeries) : Option (Option KSeries) :=
+  if wholeSeries reqs s.labels then some none else
+  match codeChunksK (mergedIntervals reqs s.labels) s.chunks with
+  | none => none
+  | some cs => some (if cs.isEmpty then none else some { s with chunks := cs })
+
+/-- the rewrite of a block with encodings; `none` = panic -/
+def rewriteCodeK (reqs : List Request) : List KSeries → Option (List KSeries)
+  | [] => some []
+  | s :: rest =>
+    match codeSeriesK reqs s with
+    | none => none
+    | some r =>
+      match rewriteCodeK reqs rest with
+      | none => none
+      | some out => some (match r with | none => out | some s' => s' :: out)
+
+def KSeries.erase (s : KSeries) : Series := { labels := s.labels, chunks := s.chunks.map (·.2) }
+
 /-- `intersection` (used for the change log): the parts of `dranges` inside `i` -/
 def intersection (i : Interval) (dranges : List Interval) : List Interval :=
   (dranges.filter fun r => decide (r.mint ≤ i.maxt) && decide (i.mint ≤ r.maxt)).foldl
